@@ -246,7 +246,9 @@ def render_docx(doc, *, images=None, opts=None) -> bytes:
         fs += "".join(f'<w:footnote w:id="{i + 2}"><w:p><w:r><w:footnoteRef/></w:r>{_w_inlines(f, st)}</w:p></w:footnote>' for i, f in enumerate(st.footnotes))
         parts["word/footnotes.xml"] = f'<?xml version="1.0" encoding="UTF-8" standalone="yes"?><w:footnotes {_W_NSDECL}>{fs}</w:footnotes>'
         over.append('<Override PartName="/word/footnotes.xml" ContentType="application/vnd.openxmlformats-officedocument.wordprocessingml.footnotes+xml"/>')
-    styles = "".join(f'<w:style w:type="paragraph" w:styleId="Heading{i}"><w:name w:val="heading {i}"/><w:basedOn w:val="Normal"/><w:pPr><w:outlineLvl w:val="{i - 1}"/></w:pPr></w:style>' for i in range(1, 7))
+    # heading styles: named "heading N" (Word), or left out of styles.xml so that only the style id "HeadingN" is there to go by (generated documents)
+    styles = "" if (opts or {}).get("heading_styles") == "id-only" else "".join(
+        f'<w:style w:type="paragraph" w:styleId="Heading{i}"><w:name w:val="heading {i}"/><w:basedOn w:val="Normal"/><w:pPr><w:outlineLvl w:val="{i - 1}"/></w:pPr></w:style>' for i in range(1, 7))
     styles += ('<w:style w:type="paragraph" w:default="1" w:styleId="Normal"><w:name w:val="Normal"/></w:style>'
                '<w:style w:type="paragraph" w:styleId="ListParagraph"><w:name w:val="List Paragraph"/><w:basedOn w:val="Normal"/></w:style>'
                '<w:style w:type="table" w:styleId="TableGrid"><w:name w:val="Table Grid"/></w:style>')
